@@ -21,7 +21,7 @@ def run(tier):
     stride, offset = (3, vlib.SEED) if tier == "quick" else (1, 0)
     # value sweep (see C01): generator field values that steer a block's layout, found with the current build
     discr = os.path.join(wd, "discr.ndjson")
-    rc, out, err = vlib.run_harness(cur, ["c01-probe", discr, "12", "6" if tier == "quick" else "0"], timeout=3000)
+    rc, out, err = vlib.run_harness(cur, ["c01-probe", discr, "12", "12" if tier == "quick" else "0"], timeout=3000)
     if rc != 0:
         raise vlib.InfraError("c01-probe failed: " + err[-500:])
     ck.cov["value_sweep_settings"] = json.loads(out.strip().splitlines()[-1])["settings"]
